@@ -132,6 +132,11 @@ def gen_case(rng, shape=None):
                 if (leafname, attr) in used or (leafname == "g" and attr != "value"):
                     continue
                 used.add((leafname, attr))
+                if leafname == "w" and rng.random() < 0.3 and not ({("w", "start"), ("w", "value")} & (used - {(leafname, attr)})):
+                    used |= {("w", "start"), ("w", "value")}
+                    emods.append(mk_mod(["w"], args=[mk_mod(["start"], value=expr_for(rng, "start", params))],
+                                        value=expr_for(rng, "value", params)))       # combined spelling in an extends clause
+                    continue
                 emods.append(spell(rng, [leafname], attr, expr_for(rng, attr, params), rng.choice(["canonical", "canonical", "dotted"])))
             c["extends"].append({"base": ["B%d" % i], "mods": emods})
             new_targets += [([], "w"), ([], "g")]
@@ -152,6 +157,15 @@ def gen_case(rng, shape=None):
             style = rng.choice(["canonical", "canonical", "canonical", "dotted", "nested"])
             if shape == "chain" and rng.random() < 0.5:
                 style = "canonical"
+            if rng.random() < 0.22:
+                # combined spelling  a.b.x(attr = e1) = e2 : attributes and value in ONE modification
+                a2 = rng.choice(["start", "min", "max", "nominal"]) if attr == "value" else "value"
+                if (tuple(path), leafname, a2) not in used:
+                    used.add((tuple(path), leafname, a2))
+                    att, val = (a2, "value") if attr == "value" else (attr, "value")
+                    mods.append(mk_mod(path + [leafname], args=[mk_mod([att], value=expr_for(rng, att, params))],
+                                       value=expr_for(rng, val, params)))
+                    continue
             mods.append(spell(rng, path + [leafname], attr, expr_for(rng, attr, params), style))
         # the same path must not be opened twice in one modifier list in different spellings: merge check is
         # left to the reference (duplicate modification -> Reject)
@@ -225,6 +239,19 @@ def fixed_cases():
                                     mk_class(top, symbols=[mk_sym("eff", ["Real"], ["parameter"], value=num(9)),
                                                            mk_sym("st", ["Lib", "Station"], mods=[mk_mod(["pump", "eff"], value=val)])])],
                         "top": top, "shape": "fixed-same-name"})
+    # combined spelling name(attr = ..) = expr vs the separated spelling, names in both scopes, intermediate level
+    for combined in (True, False):
+        S_ = mk_class("S", symbols=[mk_sym("k", ["Real"], ["parameter"], value=num(2)), mk_sym("p", ["Real"], ["parameter"], value=num(1)),
+                                   mk_sym("q", ["Real"], ["parameter"], value=num(1))])
+        m1 = [mk_mod(["p"], args=[mk_mod(["max"], value=num(5))], value=ref("k"))] if combined else \
+             [mk_mod(["p"], args=[mk_mod(["max"], value=num(5))]), mk_mod(["p"], value=ref("k"))]
+        out.append({"classes": [S_, mk_class("M", symbols=[mk_sym("k", ["Real"], ["parameter"], value=num(9)), mk_sym("a", ["S"], mods=m1)])],
+                    "top": "M", "shape": "fixed-combined" if combined else "fixed-separated"})
+        Mid = mk_class("Mid", symbols=[mk_sym("g", ["Real"], ["parameter"], value=num(4)), mk_sym("s", ["S"], mods=[mk_mod(["q"], value=ref("g"))])])
+        m2 = [mk_mod(["s", "q"], args=[mk_mod(["start"], value=num(5))], value=num(7))] if combined else \
+             [mk_mod(["s", "q"], args=[mk_mod(["start"], value=num(5))]), mk_mod(["s", "q"], value=num(7))]
+        out.append({"classes": [S_, Mid, mk_class("M", symbols=[mk_sym("m", ["Mid"], mods=m2)])],
+                    "top": "M", "shape": "fixed-combined-levels" if combined else "fixed-separated-levels"})
     for c in out:
         c["text"] = render(c)
     return out
